@@ -34,8 +34,8 @@ REQUIRED = {"rerun.lists_exactly_unsuccessful": {"quick": 500, "thorough": 25000
             "rerun.second_run_executes_exactly": {"quick": 250, "thorough": 12000},
             "rerun.lists_what_the_reference_model_says_failed": {"quick": 150, "thorough": 8000},
             "rerun.scenario_whose_hook_raised_is_listed": {"quick": 40, "thorough": 2000}}
-REQUIRED_SEEN = {"listed_status": ["failed", "error", "hook_error"], "feature_order": ["directory", "explicit_reversed"],
-                 "fail_fast_environment": ["feature", "rule"], "nested_sub_step": ["undefined", "fail", "error"], "second_run_environment": ["autoretry_recipe", "plain"], "first_run_selection": ["name_pattern_matching_rows_only"], "program_shape": ["stepless_scenarios"], "wip_run_with_rerun_by_config": ["some_listed", "none_to_list"], "rerun_file_directory": ["exists", "1_levels_to_create", "2_levels_to_create", "3_levels_to_create"], "stepless_scenario_with_raising_hook_under_fail_fast": ["before_scenario", "after_scenario", "before_tag", "after_tag"], "rerun_loop_shape": ["input_only", "same_file_in_and_out", "same_file_in_and_out_by_config"], "raising_hook_of_listed_scenario": ["before_tag", "after_tag", "before_scenario", "before_step"]}
+REQUIRED_SEEN = {"listed_status": ["failed", "error", "hook_error"], "feature_order": ["directory", "explicit_reversed", "explicit_one_file_twice"],
+                 "fail_fast_environment": ["feature", "rule"], "nested_sub_step": ["undefined", "fail", "error"], "second_run_environment": ["autoretry_recipe", "plain"], "first_run_selection": ["name_pattern_matching_rows_only"], "program_shape": ["stepless_scenarios"], "run_ends_by": ["user_abort_possible"], "wip_run_with_rerun_by_config": ["some_listed", "none_to_list"], "rerun_file_directory": ["exists", "1_levels_to_create", "2_levels_to_create", "3_levels_to_create"], "stepless_scenario_with_raising_hook_under_fail_fast": ["before_scenario", "after_scenario", "before_tag", "after_tag"], "rerun_loop_shape": ["input_only", "same_file_in_and_out", "same_file_in_and_out_by_config"], "raising_hook_of_listed_scenario": ["before_tag", "after_tag", "before_scenario", "before_step"]}
 NSHARDS = {"quick": 16, "thorough": 16}
 
 
@@ -84,6 +84,11 @@ def one_history(lab, mon, rng, case, stale, sample=False):
             # explicit file arguments in an order that differs from the sorted path order: "in run order" is observable
             files.reverse()
             order = "explicit_reversed"
+            if rng.random() < 0.35 and not case.get("hook_fault") and not case.get("nested"):
+                # one file named twice, another one in between (behave b.feature a.feature b.feature): it is run twice, what fails in
+                # it is listed at each of its places in run order
+                files = files + [files[0]]
+                order = "explicit_one_file_twice"
             feats = parse_features(collect_feature_locations(files))
         else:
             feats = parse_features(collect_feature_locations(["features"]))
@@ -163,6 +168,8 @@ def one_history(lab, mon, rng, case, stale, sample=False):
                 line_text = "<%r>" % (ex,)
             mon.check("rerun.location_is_the_line_of_a_scenario_or_row", line_text.startswith(("|", "Scenario", "Example")),
                       lambda: W(entry=entry, text_at_that_line=line_text, listed=got))
+        if order == "explicit_one_file_twice":
+            return      # (a file that runs twice is listed twice; feeding such a list back is not judged here)
         mon.check("rerun.no_location_listed_twice", len(set(got)) == len(got), lambda: W(listed=got))
         # ---- independent of the statuses behave assigned: what the reference model / the harness know ----------------
         loc_name = {}
@@ -241,6 +248,12 @@ def one_history(lab, mon, rng, case, stale, sample=False):
         obs2 = lab.run(case["program"], args=args2, features=feats2, hook_plugins=[rec2])
         if obs2.escaped is not None:
             mon.check("run2.no_exception_escapes", False, lambda: W(escaped=repr(obs2.escaped)))
+            return
+        if getattr(obs2.runner, "aborted", False):
+            # (the second run was interrupted again -- outcomes are deterministic: what it got to is a prefix of what the file lists;
+            #  what it never reached stays untested)
+            mon.check("rerun.second_run_executes_exactly", entered == want_locs[:len(entered)] or sorted(entered) == sorted(want_locs[:len(entered)]),
+                      lambda: W(entered=entered, want=want_locs, file=lines, second_run="aborted again"))
             return
         mon.check("rerun.second_run_executes_exactly", sorted(entered) == sorted(want_locs),
                   lambda: W(entered=entered, want=want_locs, file=lines))
@@ -388,6 +401,11 @@ def run(spec, mon):
     for i in range(n):
         gen = {"outcomes": outs, "max_features": rng.choice([2, 3, 4]), "p_nonpass": rng.choice([0.0, 0.3, 0.5]),
                "p_stepless": 0.0, "max_items": 2, "max_rules": 1}
+        if i % 9 == 4:
+            # the user interrupts the run (KeyboardInterrupt while a step runs) / a step calls context.abort(): the interrupted
+            # scenario did not succeed -- it is listed together with what failed before it
+            gen.update({"outcomes": outs + ["ki", "abort"], "weights": {"ki": 2.0, "abort": 1.0}, "p_nonpass": 0.5})
+            mon.seen("run_ends_by", "user_abort_possible")
         if i % 7 == 5:
             # scenarios without any step in features without background: skipped in the second run unless listed
             gen.update({"p_stepless": 0.35, "p_background": 0.0, "p_rule_background": 0.0})
